@@ -60,6 +60,8 @@ def gen_cfg(rng: random.Random, allow_none_A: bool = True, n_ok: bool = True) ->
     cfg: Dict[str, Any] = {"A": A, "P": rng.choice([0, 0, 1, 2, 3, 4])}
     if n_ok and rng.random() < 0.3:
         cfg["N"] = rng.randint(1, 6)
+    elif n_ok and rng.random() < 0.1:
+        cfg["N"] = 0  # the other spelling of "no limit on the number of tasks"
     return cfg
 
 
@@ -258,6 +260,8 @@ def gen_c01_spec(rng: random.Random, maxn: int = 40) -> Dict[str, Any]:
             m["labels"] = {"origin": "cron", "trace": "t-1"}
         elif kind == "valid" and rng.random() < 0.1:
             m["labels"] = rng.choice([{"sig": b"hello world!", "n": 3}, {"blob": b"\xfb\xff\xfe"}, {"f": 1.5, "flag": True, "raw": b"ab?"}])
+        if kind == "valid" and "kwargs" not in m and rng.random() < 0.1:
+            m["api_kwargs"] = True
         if kind == "valid" and rng.random() < 0.12:
             # a parameter annotated with a plain class (no pydantic schema), value sent by keyword or position
             m["task"] = "t_plain" if m["task"] != "t_sync" else "t_plain_sync"
@@ -268,6 +272,9 @@ def gen_c01_spec(rng: random.Random, maxn: int = 40) -> Dict[str, Any]:
         msgs.append(m)
     spec: Dict[str, Any] = {"cfg": gen_cfg(rng), "msgs": msgs}
     spec["cfg"]["threads"] = len(msgs) + 2
+    if rng.random() < 0.15:
+        # another worker object in the same process (another broker, tasks of the same names, other signatures)
+        spec["twin_receiver"] = True
     r = rng.random()
     if r < 0.12:
         # a task registered while the worker is running (dynamic tasks): messages naming it are unknown before
@@ -324,6 +331,15 @@ def gen_c01_spec(rng: random.Random, maxn: int = 40) -> Dict[str, Any]:
     elif mode == "end":
         spec["end_stream"] = True
     spec["horizon"] = est_horizon(spec)
+    if rng.random() < 0.3:
+        # an optional keyword argument that some messages carry and others leave to its default
+        for m in msgs:
+            if m["kind"] == "valid" and m["task"] in ("t_async", "t_sync") and "kwargs" not in m and rng.random() < 0.5:
+                m["kwargs"] = {"opt": rng.randint(1, 99)}
+    for m in msgs:
+        if m.pop("api_kwargs", False) and "kwargs" not in m and m["task"] in ("t_async", "t_sync", "t_asyncified", "t_late", "t_shared"):
+            # keyword arguments whose names the worker's own plumbing also uses (the task takes **kwargs)
+            m["kwargs"] = rng.choice([{"target": "prod"}, {"args": [1]}, {"kwargs": {"a": 1}}, {"message": 1, "loop": 2}, {"func": "f", "executor": 0}])
     return spec
 
 
@@ -494,6 +510,11 @@ def gen_c02_spec(rng: random.Random) -> Dict[str, Any]:
         if rng.random() < 0.1:
             m["partial_types"] = True
             m["labels"] = {"origin": "cron"}
+        elif rng.random() < 0.12:
+            # labels that are not plain text: binary values, and structured values from a producer that sends bare JSON
+            m["labels"] = rng.choice([{"digest": b"\xff\xfe\x00"}, {"tags": ["a", "b"], "meta": {"k": 1}}, {"ratio": 0.25, "none": None}])
+            if not all(isinstance(x, (bytes, float)) for x in m["labels"].values()):
+                m["raw_labels"] = True
         msgs.append(m)
     if rng.random() < 0.3:
         add_same_id_messages(rng, msgs, 0.4)
@@ -511,6 +532,8 @@ def gen_c02_spec(rng: random.Random) -> Dict[str, Any]:
         "msgs": msgs, "end_stream": True,
         "backend": {"lat": rng.choice([0, 0, "y", 0.01, 0.1]), "fail": fail},
     }
+    if fail and rng.random() < 0.5:
+        spec["backend"]["fail_exc"] = rng.choice(["TimeoutError", "socket.timeout", "ConnectionError", "KeyError", "asyncio.TimeoutError"])
     r_b = rng.random()
     if r_b < 0.12:
         spec["backend"]["kind"] = "dummy_sub"
@@ -1389,6 +1412,10 @@ def gen_c07_spec(rng: random.Random) -> Dict[str, Any]:
                                                    {"_trace": "t-9", "X-Taskiq-origin": "edge", "__n": 2}])}
         if task == "t_sync":
             beh["dur"] = []
+        if beh["out"] == "ok" and rng.random() < 0.1:
+            beh["ret_handle"] = True  # the return value is an object with __await__ (sync and async functions alike)
+        if task == "t_sync":
+            pass
         elif rng.random() < 0.45:
             d = O._dur_total(beh) or 0.0
             m["timeout"] = rng.choice([0.05, 0.2, round(max(EPS, d - EPS), 7), round(d + EPS, 7), d if d > 0 else 0.1,
@@ -1510,7 +1537,9 @@ def gen_c10_spec(rng: random.Random) -> Dict[str, Any]:
         if rng.random() < 0.2:
             fail_backend.append(tok)
     kick_fail = sorted(rng.sample(range(n), rng.choice([0, 0, 1, min(2, n)])))
-    spec: Dict[str, Any] = {"cfg": {"A": rng.choice([1, 2, 4, None]), "P": rng.choice([0, 1]), "propagate": rng.random() < 0.7},
+    spec: Dict[str, Any] = {"cfg": {"A": rng.choice([1, 2, 4, None]), "P": rng.choice([0, 1]), "propagate": rng.random() < 0.7,
+                                    "ack": rng.choice(["when_saved", "when_saved", "when_executed", "when_received"])},
+                            "loop_ackable": rng.random() < 0.5,
                             "mw_eq": rng.random() < 0.25, "mw_reg": rng.choice(["add", "add", "with", "split_with", "add_then_with"]),
                             "mws": mws, "client_sends": sends, "loopback": True, "kick_fail": kick_fail,
                             "kick_exc": [rng.choice(["BackendDown", "ConnectionError", "BrokerError", "ResultSetError",
